@@ -91,7 +91,7 @@ theorem exec_cont (env : Env) (it : Nat) (st : St) : exec env .cont it st = (.co
 theorem exec_ret (env : Env) (r : Ret) (it : Nat) (st : St) : exec env (.ret r) it st = (.ret (retOk env it st r), st) := by
   simp only [exec]
 theorem exec_loop (env : Env) (id : Nat) (b : Stmt) (it : Nat) (st : St) :
-    exec env (.loop id b) it st = iterate (fun i s => exec env b i s) (env.iters id) 0 st := by simp only [exec]
+    exec env (.loop id b) it st = iterate (fun i s => exec env b i s) (env.iters id it) (it * env.stride) st := by simp only [exec]
 
 theorem seqK_norm (env : Env) (st : St) (b : Stmt) (it : Nat) : seqK env (.norm, st) b it = exec env b it st := rfl
 theorem seqK_brk (env : Env) (st : St) (b : Stmt) (it : Nat) : seqK env (.brk, st) b it = (.brk, st) := rfl
@@ -210,13 +210,13 @@ macro "c18eval" : tactic => `(tactic| simp [run, seqs, exec_seq, exec_block, exe
   exec_setErr, exec_ite, exec_brk, exec_cont, exec_ret, seqK_norm, seqK_brk, seqK_cont, seqK_ret, seqK_panic, seqK_ite,
   blockK_norm, blockK_brk, blockK_cont, blockK_ret, blockK_panic, blockK_ite, inlK_norm, inlK_ret, inlK_brk, inlK_cont,
   inlK_panic_none, inlK_panic_some, inlK_ite, writeMany, isOpen, markFailed, setVar, setEvm, evalCond, St.isOk, St.evmOf,
-  retOk, commitCache, St.init, *])
+  retOk, commitCache, St.init, List.filter_cons, List.filter_nil, *])
 
 macro "c18eval" "at" h:ident : tactic => `(tactic| simp [run, seqs, exec_seq, exec_block, exec_inl, exec_skip, exec_open, exec_commit, exec_call, exec_panic,
   exec_setErr, exec_ite, exec_brk, exec_cont, exec_ret, seqK_norm, seqK_brk, seqK_cont, seqK_ret, seqK_panic, seqK_ite,
   blockK_norm, blockK_brk, blockK_cont, blockK_ret, blockK_panic, blockK_ite, inlK_norm, inlK_ret, inlK_brk, inlK_cont,
   inlK_panic_none, inlK_panic_some, inlK_ite, writeMany, isOpen, markFailed, setVar, setEvm, evalCond, St.isOk, St.evmOf,
-  retOk, commitCache, St.init] at $h:ident)
+  retOk, commitCache, St.init, List.filter_cons, List.filter_nil] at $h:ident)
 
 open Lean Elab Tactic Meta in
 /-- case split on the condition of the outermost `if` of the goal and simplify with it -/
@@ -295,11 +295,11 @@ def Bci1Post (n : Nat) (r : Flow × St) : Prop :=
 action returns the error) or all `n` credits are on the outer context and nothing else -/
 theorem bci_loop1 (env : Env) (hp : NoPanic env) (L : Stmt) (hL : loopOf executeClaimProg 1 = some L)
     (bad : List Nat) (evm : List (Nat × EvmKind)) :
-    Bci1Post (env.iters 1) (exec env L 0 { outer := bciPre, caches := [], bad := bad, evm := evm, failed := [] }) := by
+    Bci1Post (env.iters 1 0) (exec env L 0 { outer := bciPre, caches := [], bad := bad, evm := evm, failed := [] }) := by
   simp [loopOf, executeClaimProg, seqs] at hL
   subst hL
-  rw [exec_loop]
-  refine iterate_inv _ Bci1Inv (Bci1Post (env.iters 1)) ?_ (env.iters 1) 0 _ ⟨by simp [toks], rfl, rfl⟩ ?_
+  rw [exec_loop, Nat.zero_mul]
+  refine iterate_inv _ Bci1Inv (Bci1Post (env.iters 1 0)) ?_ (env.iters 1 0) 0 _ ⟨by simp [toks], rfl, rfl⟩ ?_
   · intro i st hst
     obtain ⟨outer, caches, bad, evm, failed⟩ := st
     obtain ⟨h1, h2, h3⟩ := hst
@@ -327,8 +327,8 @@ theorem bci_loop2 (env : Env) (hp : NoPanic env) (L : Stmt) (hL : loopOf execute
     Bci2Post o (exec env L 0 { outer := o, caches := [(1, Ctx.outer, [])], bad := bad, evm := evm, failed := [] }) := by
   simp [loopOf, executeClaimProg, seqs] at hL
   subst hL
-  rw [exec_loop]
-  refine iterate_inv _ (Bci2Inv o) (Bci2Post o) ?_ (env.iters 2) 0 _ ⟨rfl, ⟨[], rfl⟩, rfl⟩ ?_
+  rw [exec_loop, Nat.zero_mul]
+  refine iterate_inv _ (Bci2Inv o) (Bci2Post o) ?_ (env.iters 2 0) 0 _ ⟨rfl, ⟨[], rfl⟩, rfl⟩ ?_
   · intro i st hst
     obtain ⟨outer, caches, bad, evm, failed⟩ := st
     obtain ⟨h1, ⟨ts, h2⟩, h3⟩ := hst
@@ -344,7 +344,7 @@ theorem bci_loop2 (env : Env) (hp : NoPanic env) (L : Stmt) (hL : loopOf execute
 /-- the designated outcome of a failed inbound bridge call: claim consumed, bridge account, the credits, the move of
 the credited coins to the refund address (when it differs from the receiver), the refund record -/
 def bciDesignated (env : Env) : List Tok :=
-  bciPre ++ toks "k.BridgeTokenToBaseCoin" (env.iters 1) 0 ++
+  bciPre ++ toks "k.BridgeTokenToBaseCoin" (env.iters 1 0) 0 ++
     (if env.cond "Keeper.BridgeCallHandler: baseCoins.IsZero()" 0 = false ∧ env.cond "Keeper.BridgeCallHandler: bytes.Equal(receiverAddr.Bytes(), refundAddr.Bytes())" 0 = false
       then [⟨"k.bankKeeper.SendCoins", 0, []⟩] else []) ++
     [⟨"k.AddOutgoingBridgeCall", 0, []⟩]
@@ -371,7 +371,7 @@ theorem bci_fail (env : Env) (hp : NoPanic env)
   all_goals try (simp [BciGood]; done)
   all_goals (
     generalize hr : exec env L1 0 _ = r1
-    have k : Bci1Post (env.iters 1) r1 := by rw [← hr]; exact k1' _ _
+    have k : Bci1Post (env.iters 1 0) r1 := by rw [← hr]; exact k1' _ _
     clear hr
     obtain ⟨fl, ⟨outer, caches, bad, evm, failed⟩⟩ := r1
     rcases k with ⟨h1, h2, h3⟩ | ⟨h1, h2, h3, h4⟩ <;> simp only at h1 h2 h3 <;> subst h1 h2 h3
@@ -381,7 +381,7 @@ theorem bci_fail (env : Env) (hp : NoPanic env)
       subst h4
       c18eval
       generalize hr : exec env L2 0 _ = r2
-      have k : Bci2Post (bciPre ++ toks "k.BridgeTokenToBaseCoin" (env.iters 1) 0) r2 := by rw [← hr]; exact k2' _ _ _
+      have k : Bci2Post (bciPre ++ toks "k.BridgeTokenToBaseCoin" (env.iters 1 0) 0) r2 := by rw [← hr]; exact k2' _ _ _
       clear hr
       obtain ⟨fl, ⟨outer, caches, bad, evm, failed⟩⟩ := r2
       obtain ⟨h1, ⟨ts, h2⟩, h3⟩ := k
@@ -395,83 +395,284 @@ theorem bci_fail (env : Env) (hp : NoPanic env)
         repeat' c18split
         all_goals (simp [BciGood, bciDesignated, bciPre]; try simp_all))
 
-/-! ## 3. passed proposal whose message fails -/
+/-! ## 3. passed proposals: a BLOCK of proposals whose voting period ended (the walk over the active proposals) -/
 
-def GovInv (_ : Nat) (st : St) : Prop :=
-  st.outer = [] ∧ (∃ ts, st.caches = [(1, Ctx.outer, ts)]) ∧ st.failed = [] ∧ st.bad = []
+/-- every message of proposal `p` (the first `n` of them) is handled without error and without panic -/
+def GovAllOkP (env : Env) (p n : Nat) : Prop :=
+  ∀ j, j < n → env.ok "handler" (p * env.stride + j) = true ∧ env.panics "handler" (p * env.stride + j) = false
 
-def GovPost (r : Flow × St) : Prop :=
-  r.1 = .norm ∧ r.2.outer = [] ∧ (∃ ts, r.2.caches = [(1, Ctx.outer, ts)]) ∧
-    ((r.2.failed = [] ∧ r.2.bad = []) ∨ (r.2.failed = [1] ∧ r.2.bad.contains 1 = true))
+theorem GovAllOkP_succ (env : Env) (p k : Nat) (h : GovAllOkP env p k)
+    (hp : env.panics "handler" (p * env.stride + k) = false) (hok : env.ok "handler" (p * env.stride + k) = true) :
+    GovAllOkP env p (k + 1) := by
+  intro j hj
+  rcases Nat.lt_succ_iff_lt_or_eq.mp hj with h1 | h1
+  · exact h j h1
+  · subst h1; exact ⟨hok, hp⟩
 
-/-- the message loop: all handlers run on the ONE cache opened before the loop; the first failing message (returned
-error or recovered panic, at any index) ends the loop with the error variable set and nothing on the outer context -/
-theorem gov_loop (env : Env) (hp : ∀ n i, n ≠ "handler" → env.panics n i = false) (L : Stmt)
-    (hL : loopOf govProg 1 = some L) :
-    GovPost (exec env L 0 { outer := [], caches := [(1, Ctx.outer, [])], bad := [], evm := [], failed := [] }) := by
+abbrev Caches := List (Nat × Ctx × List Tok)
+
+def GovMsgInv (env : Env) (p : Nat) (o : List Tok) (rest : Caches) (f0 : List Nat) (i : Nat) (st : St) : Prop :=
+  ∃ k, i = p * env.stride + k ∧ st.outer = o ∧ st.caches = (2, Ctx.outer, toks "handler" k (p * env.stride)) :: rest ∧
+    st.failed = f0 ∧ st.bad.contains 4 = false ∧ GovAllOkP env p k
+
+def GovMsgPost (env : Env) (p : Nat) (o : List Tok) (rest : Caches) (f0 : List Nat) (r : Flow × St) : Prop :=
+  r.1 = .norm ∧ r.2.outer = o ∧
+    ((r.2.caches = (2, Ctx.outer, toks "handler" (env.iters 2 p) (p * env.stride)) :: rest ∧ r.2.failed = f0 ∧
+        r.2.bad.contains 4 = false ∧ GovAllOkP env p (env.iters 2 p)) ∨
+     ((∃ ts, r.2.caches = (2, Ctx.outer, ts) :: rest) ∧ r.2.failed = 2 :: f0 ∧ r.2.bad.contains 4 = true ∧
+        ¬ GovAllOkP env p (env.iters 2 p)))
+
+/-- the message loop of ONE proposal `p`: all its handlers run on the cache opened for THIS proposal; the first failing
+message (error or recovered panic, any index) ends the loop with the error variable set, nothing on the outer context
+and the other open caches (`rest`) untouched -/
+theorem gov_msg_loop (env : Env) (L : Stmt) (hL : loopOf govProg 2 = some L) (p : Nat)
+    (o : List Tok) (rest : Caches) (hrest : rest = [] ∨ ∃ a, rest = [(3, Ctx.outer, a)])
+    (bad : List Nat) (hb : bad.contains 4 = false) (evm : List (Nat × EvmKind)) (f0 : List Nat) :
+    GovMsgPost env p o rest f0
+      (exec env L p { outer := o, caches := (2, Ctx.outer, []) :: rest, bad := bad, evm := evm, failed := f0 }) := by
   simp [loopOf, govProg, seqs] at hL
   subst hL
   rw [exec_loop]
-  refine iterate_inv _ GovInv GovPost ?_ (env.iters 1) 0 _ ⟨rfl, ⟨[], rfl⟩, rfl, rfl⟩ ?_
-  · intro i st hst
+  refine iterate_inv_bdd _ (GovMsgInv env p o rest f0) (GovMsgPost env p o rest f0) (env.iters 2 p) (p * env.stride) _
+    ⟨0, rfl, rfl, by simp [toks], rfl, hb, fun j hj => absurd hj (Nat.not_lt_zero j)⟩ ?_ ?_
+  · intro i st _ hi hst
     obtain ⟨outer, caches, bad, evm, failed⟩ := st
-    obtain ⟨h1, ⟨ts, h2⟩, h3, h4⟩ := hst
+    obtain ⟨k, hk, h1, h2, h3, h4, h5⟩ := hst
     simp only at h1 h2 h3 h4
-    subst h1 h2 h3 h4
-    by_cases hpn : env.panics "handler" i <;> by_cases hok : env.ok "handler" i <;> c18eval <;> simp [GovInv, GovPost]
+    subst hk h1 h2 h3
+    have hkn : k < env.iters 2 p := by omega
+    have hno : (env.ok "handler" (p * env.stride + k) = false ∨ env.panics "handler" (p * env.stride + k) = true) →
+        ¬ GovAllOkP env p (env.iters 2 p) := by
+      intro hf hall
+      have := hall k hkn
+      rcases hf with hf | hf <;> simp [hf] at this
+    have h4' : 4 ∉ bad := by simpa using h4
+    rcases hrest with hr | ⟨a, hr⟩ <;> subst hr <;>
+    by_cases hpn : env.panics "handler" (p * env.stride + k) <;> by_cases hok : env.ok "handler" (p * env.stride + k) <;> c18eval
+    all_goals first
+      | exact ⟨by simp [GovMsgPost], by simp [GovMsgPost], Or.inr ⟨⟨_, rfl⟩, rfl, by simp, hno (Or.inr hpn)⟩⟩
+      | exact ⟨by simp [GovMsgPost], by simp [GovMsgPost], Or.inr ⟨⟨_, rfl⟩, rfl, by simp, hno (Or.inl (by simpa using hok))⟩⟩
+      | exact ⟨k + 1, by omega, rfl, by simp [toks_snoc], rfl, by simp [h4'], GovAllOkP_succ env p k h5 (by simpa using hpn) hok⟩
   · intro st hst
-    obtain ⟨h1, h2, h3, h4⟩ := hst
-    exact ⟨rfl, h1, h2, Or.inl ⟨h3, h4⟩⟩
+    obtain ⟨k, hk, h1, h2, h3, h4, h5⟩ := hst
+    have : k = env.iters 2 p := by omega
+    subst this
+    exact ⟨rfl, h1, Or.inl ⟨h2, h3, h4, h5⟩⟩
 
-/-- the designated outcome of a failed proposal: the status, the stored proposal, and the (separately tolerated) hook -/
-def govHook (env : Env) : List Tok :=
-  if env.ok "keeper.Hooks().AfterProposalVotingPeriodEnded" 0 then [⟨"keeper.Hooks().AfterProposalVotingPeriodEnded", 0, []⟩] else []
+/-- `gov_msg_loop` keyed by the equation that names the result (all arguments are read off the equation) -/
+theorem gov_msg_loop_eq (env : Env) (L : Stmt) (hL : loopOf govProg 2 = some L) (p : Nat) (st : St) (r : Flow × St)
+    (hr : exec env L p st = r)
+    (hc : st.caches = [(2, Ctx.outer, [])] ∨ ∃ a, st.caches = [(2, Ctx.outer, []), (3, Ctx.outer, a)])
+    (hb : st.bad.contains 4 = false) :
+    GovMsgPost env p st.outer (st.caches.drop 1) st.failed r := by
+  obtain ⟨outer, caches, bad, evm, failed⟩ := st
+  subst hr
+  rcases hc with hc | ⟨a, hc⟩ <;> simp only at hc <;> subst hc
+  · exact gov_msg_loop env L hL p outer [] (Or.inl rfl) bad hb evm failed
+  · exact gov_msg_loop env L hL p outer [(3, Ctx.outer, a)] (Or.inr ⟨a, rfl⟩) bad hb evm failed
 
-/-- (the second `proposal.Status = v1.StatusFailed` of the clause: the one after the message loop) -/
-def govDesignated (env : Env) : List Tok :=
-  [⟨"set proposal.Status = v1.StatusFailed #2", 0, []⟩, ⟨"keeper.SetProposal", 0, []⟩] ++ govHook env
+/-- the calls of the per-proposal body that run on the outer context succeed (an error of any of them is returned by
+`EndBlocker`: the block fails as a whole), and nothing but a message handler panics -/
+structure GovOuterOk (env : Env) : Prop where
+  nopanic : ∀ n i, n ≠ "handler" → env.panics n i = false
+  get : ∀ p, env.ok "keeper.Proposals.Get" p = true
+  tally : ∀ p, env.ok "keeper.Tally" p = true
+  burn : ∀ p, env.ok "keeper.DeleteAndBurnDeposits" p = true
+  refund : ∀ p, env.ok "keeper.RefundAndDeleteDeposits" p = true
+  remove : ∀ p, env.ok "keeper.ActiveProposalsQueue.Remove #2" p = true
+  params : ∀ p, env.ok "keeper.Params.Get" p = true
+  qset : ∀ p, env.ok "keeper.ActiveProposalsQueue.Set" p = true
+  setp : ∀ p, env.ok "keeper.SetProposal" p = true
 
-/-- the messages of the proposal cannot be unpacked: nothing is executed at all -/
-def govDesignatedNoMsgs (env : Env) : List Tok :=
-  [⟨"set proposal.Status = v1.StatusFailed", 0, []⟩, ⟨"keeper.SetProposal", 0, []⟩] ++ govHook env
+open Classical in
+/-- what proposal `p` of the block leaves on the outer context.  A passed proposal one of whose messages fails
+contributes its bookkeeping, `Status = Failed`, `SetProposal` and the hook — and NO handler write. -/
+noncomputable def govContribution (env : Env) (p : Nat) : List Tok :=
+  [⟨"keeper.Tally", p, []⟩] ++
+  (if env.cond "EndBlocker: proposal.Expedited" p = false ∨ env.cond "EndBlocker: passes" p = true then
+     (if env.cond "EndBlocker: burnDeposits" p = true then [⟨"keeper.DeleteAndBurnDeposits", p, []⟩]
+      else [⟨"keeper.RefundAndDeleteDeposits", p, []⟩])
+   else []) ++
+  [⟨"keeper.ActiveProposalsQueue.Remove #2", p, []⟩] ++
+  (if env.cond "EndBlocker: passes #2" p = true then
+     (if env.ok "proposal.GetMsgs" p = true then
+        (if GovAllOkP env p (env.iters 2 p) then
+          ⟨"set proposal.Status = v1.StatusPassed", p, []⟩ :: toks "handler" (env.iters 2 p) (p * env.stride)
+         else [⟨"set proposal.Status = v1.StatusFailed #2", p, []⟩])
+      else [⟨"set proposal.Status = v1.StatusFailed", p, []⟩])
+   else if env.cond "EndBlocker: proposal.Expedited #2" p = true then [⟨"keeper.ActiveProposalsQueue.Set", p, []⟩]
+   else [⟨"set proposal.Status = v1.StatusRejected", p, []⟩]) ++
+  [⟨"keeper.SetProposal", p, []⟩] ++
+  (if env.ok "keeper.Hooks().AfterProposalVotingPeriodEnded" p = true then [⟨"keeper.Hooks().AfterProposalVotingPeriodEnded", p, []⟩] else [])
 
-def GovGood (env : Env) (r : Flow × St) : Prop :=
-  1 ∈ r.2.failed → r.1 = .ret true ∧ r.2.outer = govDesignated env
+/-- the outer context after the first `n` proposals of the block -/
+noncomputable def govBlock (env : Env) : Nat → List Tok
+  | 0 => []
+  | n + 1 => govBlock env n ++ govContribution env n
 
-theorem gov_fail (env : Env) (hp : ∀ n i, n ≠ "handler" → env.panics n i = false)
-    (hset : env.ok "keeper.SetProposal" 0 = true) : GovGood env (run env govProg) := by
-  have p1 := hp "proposal.GetMsgs" 0 (by decide)
-  have p2 := hp "set proposal.Status = v1.StatusFailed" 0 (by decide)
-  have p2' := hp "set proposal.Status = v1.StatusFailed #2" 0 (by decide)
-  have p3 := hp "set proposal.Status = v1.StatusPassed" 0 (by decide)
-  have p4 := hp "keeper.SetProposal" 0 (by decide)
-  have p5 := hp "keeper.Hooks().AfterProposalVotingPeriodEnded" 0 (by decide)
-  have k := gov_loop env hp
+def CachesOK (cs : Caches) : Prop :=
+  cs = [] ∨ (∃ a, cs = [(3, Ctx.outer, a)]) ∨ (∃ a b, cs = [(3, Ctx.outer, a), (2, Ctx.outer, b)])
+
+def GovBlockInv (env : Env) (p : Nat) (st : St) : Prop :=
+  st.outer = govBlock env p ∧ CachesOK st.caches ∧ st.bad.contains 1 = false
+
+def GovBlockPost (env : Env) (r : Flow × St) : Prop :=
+  r.1 = .norm ∧ r.2.outer = govBlock env (env.iters 1 0) ∧ r.2.bad.contains 1 = false
+
+theorem gov_block_loop (env : Env) (hok : GovOuterOk env) (L : Stmt) (hL : loopOf govProg 1 = some L) :
+    GovBlockPost env (exec env L 0 {}) := by
+  simp [loopOf, govProg, seqs] at hL
+  generalize hL2 : Stmt.loop 2 _ = L2 at hL
+  have kmsg := gov_msg_loop_eq env L2 (by rw [← hL2]; simp [loopOf, govProg, seqs])
+  subst hL
+  rw [exec_loop, Nat.zero_mul]
+  refine iterate_inv_bdd _ (GovBlockInv env) (GovBlockPost env) (env.iters 1 0) 0 _ ⟨rfl, Or.inl rfl, rfl⟩ ?_ ?_
+  · intro p st _ _ hst
+    obtain ⟨outer, caches, bad, evm, failed⟩ := st
+    obtain ⟨h1, h2, h3⟩ := hst
+    simp only at h1 h2 h3
+    subst h1
+    have h3' : 1 ∉ bad := by simpa using h3
+    have q1 := hok.nopanic "keeper.Proposals.Get" p (by decide)
+    have q2 := hok.nopanic "keeper.Tally" p (by decide)
+    have q3 := hok.nopanic "keeper.DeleteAndBurnDeposits" p (by decide)
+    have q4 := hok.nopanic "keeper.RefundAndDeleteDeposits" p (by decide)
+    have q5 := hok.nopanic "keeper.ActiveProposalsQueue.Remove #2" p (by decide)
+    have q6 := hok.nopanic "proposal.GetMsgs" p (by decide)
+    have q7 := hok.nopanic "set proposal.Status = v1.StatusFailed" p (by decide)
+    have q8 := hok.nopanic "set proposal.Status = v1.StatusFailed #2" p (by decide)
+    have q9 := hok.nopanic "set proposal.Status = v1.StatusPassed" p (by decide)
+    have q10 := hok.nopanic "set proposal.Status = v1.StatusRejected" p (by decide)
+    have q11 := hok.nopanic "keeper.Params.Get" p (by decide)
+    have q12 := hok.nopanic "keeper.ActiveProposalsQueue.Set" p (by decide)
+    have q13 := hok.nopanic "keeper.SetProposal" p (by decide)
+    have q14 := hok.nopanic "keeper.Hooks().AfterProposalVotingPeriodEnded" p (by decide)
+    have o1 := hok.get p
+    have o2 := hok.tally p
+    have o3 := hok.burn p
+    have o4 := hok.refund p
+    have o5 := hok.remove p
+    have o6 := hok.params p
+    have o7 := hok.qset p
+    have o8 := hok.setp p
+    clear hok
+    rcases h2 with hc | ⟨a, hc⟩ | ⟨a, b, hc⟩ <;> subst hc
+    all_goals (
+      c18eval
+      repeat' c18split
+      all_goals try (simp [GovBlockInv, CachesOK, govBlock, govContribution, *]; done)
+      all_goals try (simp [GovBlockInv, CachesOK, govBlock, govContribution, *]; done))
+    all_goals (
+      generalize hr : exec env L2 p _ = r
+      have k := kmsg p _ _ hr (by simp) (by simp [h3'])
+      clear hr
+      obtain ⟨fl, ⟨outer', caches', bad', evm', failed'⟩⟩ := r
+      obtain ⟨k1, k2, k4⟩ := k
+      simp only [List.drop] at k1 k2 k4
+      subst k1 k2
+      rcases k4 with ⟨k5, k6, k7, k8⟩ | ⟨⟨ts, k5⟩, k6, k7, k8⟩ <;> subst k5 k6
+      · have k7' : 4 ∉ bad' := by simpa using k7
+        c18eval
+        repeat' c18split
+        all_goals (simp [GovBlockInv, CachesOK, govBlock, govContribution, *])
+      · have k7' : 4 ∈ bad' := by simpa using k7
+        c18eval
+        repeat' c18split
+        all_goals (simp [GovBlockInv, CachesOK, govBlock, govContribution, *]))
+  · intro st hst
+    obtain ⟨h1, _, h3⟩ := hst
+    simp at h1
+    exact ⟨rfl, h1, h3⟩
+
+/-- **a block of proposals**: `EndBlocker`'s walk over the active proposals returns nil and the outer context carries,
+proposal after proposal, exactly each proposal's own contribution -/
+theorem gov_block (env : Env) (hok : GovOuterOk env) :
+    (run env govProg).1 = .ret true ∧ (run env govProg).2.outer = govBlock env (env.iters 1 0) := by
+  have k := gov_block_loop env hok
   unfold govProg at k ⊢
   simp only [seqs, loopOf] at k
   simp only [run, seqs]
   generalize hL : Stmt.loop 1 _ = L at k ⊢
   have k' := k L (by simp)
-  clear k hL hp
+  clear k hL
   c18eval
+  generalize exec env L 0 _ = r at k'
+  obtain ⟨fl, ⟨outer, caches, bad, evm, failed⟩⟩ := r
+  obtain ⟨h1, h2, h3⟩ := k'
+  simp only at h1 h2 h3
+  subst h1 h2
+  have h3' : 1 ∉ bad := by simpa using h3
+  c18eval
+
+theorem mem_toks (name : String) (t : Tok) : ∀ n b, t ∈ toks name n b → t.name = name ∧ b ≤ t.iter ∧ t.iter < b + n := by
+  intro n
+  induction n with
+  | zero => intro b h; simp [toks] at h
+  | succ n ih =>
+    intro b h
+    simp only [toks, List.mem_cons] at h
+    rcases h with h | h
+    · subst h; exact ⟨rfl, Nat.le_refl _, by show b < b + (n + 1); omega⟩
+    · have := ih (b + 1) h
+      exact ⟨this.1, by omega, by omega⟩
+
+/-- a handler write is on the outer context only if it belongs to a proposal ALL of whose messages succeeded -/
+theorem handler_in_contribution (env : Env) (p : Nat) (t : Tok) (ht : t ∈ govContribution env p) (hn : t.name = "handler") :
+    GovAllOkP env p (env.iters 2 p) ∧ p * env.stride ≤ t.iter ∧ t.iter < p * env.stride + env.iters 2 p := by
+  unfold govContribution at ht
+  simp only [List.mem_append, List.mem_cons, List.mem_singleton, List.not_mem_nil, or_false] at ht
+  rcases ht with ((((ht | ht) | ht) | ht) | ht) | ht
+  · subst ht; simp at hn
+  · split at ht
+    · split at ht <;> simp at ht <;> subst ht <;> simp at hn
+    · simp at ht
+  · subst ht; simp at hn
+  · split at ht
+    · split at ht
+      · split at ht
+        · rename_i hall
+          simp only [List.mem_cons] at ht
+          rcases ht with ht | ht
+          · subst ht; simp at hn
+          · exact ⟨hall, (mem_toks _ _ _ _ ht).2⟩
+        · simp at ht; subst ht; simp at hn
+      · simp at ht; subst ht; simp at hn
+    · split at ht <;> simp at ht <;> subst ht <;> simp at hn
+  · subst ht; simp at hn
+  · split at ht
+    · simp at ht; subst ht; simp at hn
+    · simp at ht
+
+theorem handler_in_block (env : Env) (t : Tok) (hn : t.name = "handler") :
+    ∀ P, t ∈ govBlock env P → ∃ p, p < P ∧ GovAllOkP env p (env.iters 2 p) ∧
+      p * env.stride ≤ t.iter ∧ t.iter < p * env.stride + env.iters 2 p := by
+  intro P
+  induction P with
+  | zero => intro h; simp [govBlock] at h
+  | succ P ih =>
+    intro h
+    simp only [govBlock, List.mem_append] at h
+    rcases h with h | h
+    · obtain ⟨p, hp, rest⟩ := ih h
+      exact ⟨p, by omega, rest⟩
+    · exact ⟨P, by omega, handler_in_contribution env P t h hn⟩
+
+/-! ## 2b. the executeClaim precompile: the context on which the keeper's ExecuteClaim runs -/
+
+/-- the executeClaim precompile: either nothing at all is written (and `Run` returns an error: the EVM transaction
+fails), or the keeper's `ExecuteClaim` AND the event both succeeded and exactly the claim's writes are journaled -/
+def XcGood (env : Env) (r : Flow × St) : Prop :=
+  (r.1 = .ret false ∧ r.2.outer = []) ∨
+  (env.ok "crosschainKeeper.ExecuteClaim" 0 = true ∧ env.ok "m.NewExecuteClaimEvent" 0 = true ∧
+    r.2.outer = [⟨"crosschainKeeper.ExecuteClaim", 0, []⟩])
+
+theorem xc_total (env : Env) (hp : NoPanic env) : XcGood env (run env executeClaimPrecompileProg) := by
+  have hp' := fun n i => hp n i
+  unfold executeClaimPrecompileProg
+  c18eval
+  clear hp hp'
   repeat' c18split
-  all_goals try (simp [GovGood]; done)
-  all_goals (
-    generalize exec env L 0 _ = r at k'
-    obtain ⟨fl, ⟨outer, caches, bad, evm, failed⟩⟩ := r
-    obtain ⟨h1, h2, ⟨ts, h3⟩, h4⟩ := k'
-    simp only at h1 h2 h3 h4
-    subst h1 h2 h3
-    rcases h4 with ⟨hf, hb⟩ | ⟨hf, hb⟩
-    · subst hf hb
-      c18eval
-      repeat' c18split
-      all_goals simp [GovGood]
-    · subst hf
-      have hb' : 1 ∈ bad := by simpa using hb
-      c18eval
-      repeat' c18split
-      all_goals (simp [GovGood, govDesignated, govHook]; try simp_all))
+  all_goals simp [XcGood, *]
 
 /-! ## 4. IBC packet whose follow-up fails -/
 
@@ -502,96 +703,6 @@ theorem all_succ (p : Nat → Prop) (i : Nat) (h : ∀ j, j < i → p j) (hi : p
   · exact h j h1
   · subst h1; exact hi
 
-/-! ### gov -/
-
-/-- all messages before index `i` are handled without error and without panic -/
-def GovAllOk (env : Env) (i : Nat) : Prop := ∀ j, j < i → env.ok "handler" j = true ∧ env.panics "handler" j = false
-
-def GovInv' (env : Env) (i : Nat) (st : St) : Prop :=
-  st.outer = [] ∧ st.caches = [(1, Ctx.outer, toks "handler" i 0)] ∧ st.failed = [] ∧ st.bad = [] ∧ GovAllOk env i
-
-def GovPost' (env : Env) (n : Nat) (r : Flow × St) : Prop :=
-  r.1 = .norm ∧ r.2.outer = [] ∧
-    ((r.2.caches = [(1, Ctx.outer, toks "handler" n 0)] ∧ r.2.failed = [] ∧ r.2.bad = [] ∧ GovAllOk env n) ∨
-     ((∃ ts, r.2.caches = [(1, Ctx.outer, ts)]) ∧ r.2.failed = [1] ∧ r.2.bad.contains 1 = true ∧ ¬ GovAllOk env n))
-
-theorem GovAllOk_succ (env : Env) (i : Nat) (h : GovAllOk env i) (hp : env.panics "handler" i = false)
-    (hok : env.ok "handler" i = true) : GovAllOk env (i + 1) := by
-  intro j hj
-  rcases Nat.lt_succ_iff_lt_or_eq.mp hj with h1 | h1
-  · exact h j h1
-  · subst h1; exact ⟨hok, hp⟩
-
-theorem gov_loop' (env : Env) (L : Stmt)
-    (hL : loopOf govProg 1 = some L) :
-    GovPost' env (env.iters 1) (exec env L 0 { outer := [], caches := [(1, Ctx.outer, [])], bad := [], evm := [], failed := [] }) := by
-  simp [loopOf, govProg, seqs] at hL
-  subst hL
-  rw [exec_loop]
-  refine iterate_inv_bdd _ (GovInv' env) (GovPost' env (env.iters 1)) (env.iters 1) 0 _ ⟨rfl, by simp [toks], rfl, rfl, fun j hj => absurd hj (Nat.not_lt_zero j)⟩ ?_ ?_
-  · intro i st _ hi hst
-    obtain ⟨outer, caches, bad, evm, failed⟩ := st
-    obtain ⟨h1, h2, h3, h4, h5⟩ := hst
-    simp only at h1 h2 h3 h4
-    subst h1 h2 h3 h4
-    have hno : (env.ok "handler" i = false ∨ env.panics "handler" i = true) → ¬ GovAllOk env (env.iters 1) := by
-      intro hf hall
-      have := hall i (by omega)
-      rcases hf with hf | hf <;> simp [hf] at this
-    by_cases hpn : env.panics "handler" i <;> by_cases hok : env.ok "handler" i <;> c18eval
-    · exact ⟨by simp [GovPost'], by simp [GovPost'], Or.inr ⟨⟨_, rfl⟩, rfl, by simp, hno (Or.inr hpn)⟩⟩
-    · exact ⟨by simp [GovPost'], by simp [GovPost'], Or.inr ⟨⟨_, rfl⟩, rfl, by simp, hno (Or.inr hpn)⟩⟩
-    · exact ⟨rfl, by simp [toks_snoc], rfl, rfl, GovAllOk_succ env i h5 (by simpa using hpn) hok⟩
-    · exact ⟨by simp [GovPost'], by simp [GovPost'], Or.inr ⟨⟨_, rfl⟩, rfl, by simp, hno (Or.inl (by simpa using hok))⟩⟩
-  · intro st hst
-    obtain ⟨h1, h2, h3, h4, h5⟩ := hst
-    simp at h5 h2
-    exact ⟨rfl, h1, Or.inl ⟨h2, h3, h4, h5⟩⟩
-
-def govSuccess (env : Env) : List Tok :=
-  [⟨"set proposal.Status = v1.StatusPassed", 0, []⟩] ++ toks "handler" (env.iters 1) 0 ++ [⟨"keeper.SetProposal", 0, []⟩] ++ govHook env
-
-def GovOutcome (env : Env) (r : Flow × St) : Prop :=
-  r.1 = .ret true ∧
-   ((env.ok "proposal.GetMsgs" 0 = false ∧ r.2.outer = govDesignatedNoMsgs env ∧ 1 ∉ r.2.failed) ∨
-    (env.ok "proposal.GetMsgs" 0 = true ∧ GovAllOk env (env.iters 1) ∧ r.2.outer = govSuccess env ∧ 1 ∉ r.2.failed) ∨
-    (env.ok "proposal.GetMsgs" 0 = true ∧ ¬ GovAllOk env (env.iters 1) ∧ r.2.outer = govDesignated env ∧ 1 ∈ r.2.failed))
-
-theorem gov_total (env : Env) (hp : ∀ n i, n ≠ "handler" → env.panics n i = false)
-    (hset : env.ok "keeper.SetProposal" 0 = true) : GovOutcome env (run env govProg) := by
-  have p1 := hp "proposal.GetMsgs" 0 (by decide)
-  have p2 := hp "set proposal.Status = v1.StatusFailed" 0 (by decide)
-  have p2' := hp "set proposal.Status = v1.StatusFailed #2" 0 (by decide)
-  have p3 := hp "set proposal.Status = v1.StatusPassed" 0 (by decide)
-  have p4 := hp "keeper.SetProposal" 0 (by decide)
-  have p5 := hp "keeper.Hooks().AfterProposalVotingPeriodEnded" 0 (by decide)
-  have k := gov_loop' env
-  unfold govProg at k ⊢
-  simp only [seqs, loopOf] at k
-  simp only [run, seqs]
-  generalize hL : Stmt.loop 1 _ = L at k ⊢
-  have k' := k L (by simp)
-  clear k hL hp
-  c18eval
-  by_cases hm : env.ok "proposal.GetMsgs" 0 <;> simp [hm]
-  · generalize exec env L 0 _ = r at k'
-    obtain ⟨fl, ⟨outer, caches, bad, evm, failed⟩⟩ := r
-    obtain ⟨h1, h2, h4⟩ := k'
-    simp only at h1 h2 h4
-    subst h1 h2
-    rcases h4 with ⟨hc, hf, hb, hall⟩ | ⟨⟨ts, hc⟩, hf, hb, hall⟩
-    · subst hc hf hb
-      c18eval
-      by_cases hh : env.ok "keeper.Hooks().AfterProposalVotingPeriodEnded" 0 <;>
-        simp [hh, GovOutcome, hm, hall, govSuccess, govHook]
-    · subst hc hf
-      have hb' : 1 ∈ bad := by simpa using hb
-      c18eval
-      by_cases hh : env.ok "keeper.Hooks().AfterProposalVotingPeriodEnded" 0 <;>
-        simp [hh, GovOutcome, hm, hall, govDesignated, govHook]
-  · by_cases hh : env.ok "keeper.Hooks().AfterProposalVotingPeriodEnded" 0 <;>
-      simp [hh, GovOutcome, hm, govDesignatedNoMsgs, govHook]
-
 /-! ### inbound bridge call -/
 
 def BciAll1 (env : Env) (i : Nat) : Prop := ∀ j, j < i → env.ok "k.BridgeTokenToBaseCoin" j = true
@@ -606,11 +717,11 @@ def Bci1Post' (env : Env) (n : Nat) (r : Flow × St) : Prop :=
 
 theorem bci_loop1' (env : Env) (hp : NoPanic env) (L : Stmt) (hL : loopOf executeClaimProg 1 = some L)
     (bad : List Nat) (evm : List (Nat × EvmKind)) :
-    Bci1Post' env (env.iters 1) (exec env L 0 { outer := bciPre, caches := [], bad := bad, evm := evm, failed := [] }) := by
+    Bci1Post' env (env.iters 1 0) (exec env L 0 { outer := bciPre, caches := [], bad := bad, evm := evm, failed := [] }) := by
   simp [loopOf, executeClaimProg, seqs] at hL
   subst hL
-  rw [exec_loop]
-  refine iterate_inv_bdd _ (Bci1Inv' env) (Bci1Post' env (env.iters 1)) (env.iters 1) 0 _
+  rw [exec_loop, Nat.zero_mul]
+  refine iterate_inv_bdd _ (Bci1Inv' env) (Bci1Post' env (env.iters 1 0)) (env.iters 1 0) 0 _
     ⟨by simp [toks], rfl, rfl, fun j hj => absurd hj (Nat.not_lt_zero j)⟩ ?_ ?_
   · intro i st _ hi hst
     obtain ⟨outer, caches, bad, evm, failed⟩ := st
@@ -618,7 +729,7 @@ theorem bci_loop1' (env : Env) (hp : NoPanic env) (L : Stmt) (hL : loopOf execut
     simp only at h1 h2 h3
     subst h1 h2 h3
     have hp' := fun n i => hp n i
-    have hno : env.ok "k.BridgeTokenToBaseCoin" i = false → ¬ BciAll1 env (env.iters 1) := by
+    have hno : env.ok "k.BridgeTokenToBaseCoin" i = false → ¬ BciAll1 env (env.iters 1 0) := by
       intro hf hall
       have := hall i (by omega)
       simp [hf] at this
@@ -640,11 +751,11 @@ def Bci2Post' (env : Env) (o : List Tok) (n : Nat) (r : Flow × St) : Prop :=
 
 theorem bci_loop2' (env : Env) (hp : NoPanic env) (L : Stmt) (hL : loopOf executeClaimProg 2 = some L)
     (o : List Tok) (bad : List Nat) (evm : List (Nat × EvmKind)) :
-    Bci2Post' env o (env.iters 2) (exec env L 0 { outer := o, caches := [(1, Ctx.outer, [])], bad := bad, evm := evm, failed := [] }) := by
+    Bci2Post' env o (env.iters 2 0) (exec env L 0 { outer := o, caches := [(1, Ctx.outer, [])], bad := bad, evm := evm, failed := [] }) := by
   simp [loopOf, executeClaimProg, seqs] at hL
   subst hL
-  rw [exec_loop]
-  refine iterate_inv_bdd _ (Bci2Inv' env o) (Bci2Post' env o (env.iters 2)) (env.iters 2) 0 _
+  rw [exec_loop, Nat.zero_mul]
+  refine iterate_inv_bdd _ (Bci2Inv' env o) (Bci2Post' env o (env.iters 2 0)) (env.iters 2 0) 0 _
     ⟨rfl, by simp [toks], rfl, fun j hj => absurd hj (Nat.not_lt_zero j)⟩ ?_ ?_
   · intro i st _ hi hst
     obtain ⟨outer, caches, bad, evm, failed⟩ := st
@@ -652,7 +763,7 @@ theorem bci_loop2' (env : Env) (hp : NoPanic env) (L : Stmt) (hL : loopOf execut
     simp only at h1 h2 h3
     subst h1 h2 h3
     have hp' := fun n i => hp n i
-    have hno : env.ok "k.BaseCoinToEvm" i = false → ¬ BciAll2 env (env.iters 2) := by
+    have hno : env.ok "k.BaseCoinToEvm" i = false → ¬ BciAll2 env (env.iters 2 0) := by
       intro hf hall
       have := hall i (by omega)
       simp [hf] at this
@@ -667,18 +778,18 @@ theorem bci_loop2' (env : Env) (hp : NoPanic env) (L : Stmt) (hL : loopOf execut
 /-- the cached region of the inbound bridge call fails: a conversion fails, or (the target is a contract and) packing
 the callback fails, `CallEVM` returns an error, or the response carries a VM error of any kind -/
 def bciCachedFails (env : Env) : Prop :=
-  ¬ BciAll2 env (env.iters 2) ∨
+  ¬ BciAll2 env (env.iters 2 0) ∨
   (env.cond "Keeper.BridgeCallEvm: k.evmKeeper.IsContract(ctx, to)" 0 = true ∧
     ((env.cond "Keeper.BridgeCallEvm: isMemoSendCallTo" 0 = false ∧ env.ok "types.PackBridgeCallback" 0 = false) ∨
      env.ok "k.evmKeeper.CallEVM" 0 = false ∨ env.evm "k.evmKeeper.CallEVM" 0 ≠ .ok))
 
 def bciSuccess (env : Env) : List Tok :=
-  bciPre ++ toks "k.BridgeTokenToBaseCoin" (env.iters 1) 0 ++ toks "k.BaseCoinToEvm" (env.iters 2) 0 ++
+  bciPre ++ toks "k.BridgeTokenToBaseCoin" (env.iters 1 0) 0 ++ toks "k.BaseCoinToEvm" (env.iters 2 0) 0 ++
     (if env.cond "Keeper.BridgeCallEvm: k.evmKeeper.IsContract(ctx, to)" 0 = true then [⟨"k.evmKeeper.CallEVM", 0, []⟩] else [])
 
 def BciOutcome (env : Env) (r : Flow × St) : Prop :=
-  (¬ BciAll1 env (env.iters 1) ∧ r.1 = .ret false) ∨
-  (BciAll1 env (env.iters 1) ∧ r.1 = .ret true ∧
+  (¬ BciAll1 env (env.iters 1 0) ∧ r.1 = .ret false) ∨
+  (BciAll1 env (env.iters 1 0) ∧ r.1 = .ret true ∧
     ((¬ bciCachedFails env ∧ r.2.outer = bciSuccess env ∧ 1 ∉ r.2.failed) ∨
      (bciCachedFails env ∧ r.2.outer = bciDesignated env)))
 
@@ -705,7 +816,7 @@ theorem bci_total (env : Env) (hp : NoPanic env)
   all_goals try (simp_all; done)
   all_goals (
     generalize hr : exec env L1 0 _ = r1
-    have k : Bci1Post' env (env.iters 1) r1 := by rw [← hr]; exact k1' _ _
+    have k : Bci1Post' env (env.iters 1 0) r1 := by rw [← hr]; exact k1' _ _
     clear hr
     obtain ⟨fl, ⟨outer, caches, bad, evm, failed⟩⟩ := r1
     rcases k with ⟨hall1, h1, h2, h3⟩ | ⟨hall1, h1, h2, h3, h4⟩ <;> simp only at h1 h2 h3 <;> subst h1 h2 h3
@@ -715,7 +826,7 @@ theorem bci_total (env : Env) (hp : NoPanic env)
       subst h4
       c18eval
       generalize hr : exec env L2 0 _ = r2
-      have k : Bci2Post' env (bciPre ++ toks "k.BridgeTokenToBaseCoin" (env.iters 1) 0) (env.iters 2) r2 := by rw [← hr]; exact k2' _ _ _
+      have k : Bci2Post' env (bciPre ++ toks "k.BridgeTokenToBaseCoin" (env.iters 1 0) 0) (env.iters 2 0) r2 := by rw [← hr]; exact k2' _ _ _
       clear hr
       obtain ⟨fl, ⟨outer, caches, bad, evm, failed⟩⟩ := r2
       obtain ⟨h1, h3⟩ := k
@@ -780,8 +891,8 @@ theorem ibc_total (env : Env) (hp : NoPanic env) (hr : ibcReached env)
 /-- every leaf succeeds; three tokens / messages; the claim is a bridge call to a contract; the packet carries a
 non-FX coin for a hex receiver with an ibc-call memo -/
 def envOk : Env :=
-  { ok := fun _ _ => true, panics := fun _ _ => false, evm := fun _ _ => .ok, iters := fun _ => 3,
-    cond := fun t _ => t ∈ ["ExecuteClaim: found", "ExecuteClaim: externalClaim.(type) is *types.MsgBridgeCallClaim",
+  { ok := fun _ _ => true, panics := fun _ _ => false, evm := fun _ _ => .ok, iters := fun _ _ => 3, stride := 10,
+    cond := fun t _ => t ∈ ["EndBlocker: passes", "EndBlocker: passes #2", "Run: has", "ExecuteClaim: found", "ExecuteClaim: externalClaim.(type) is *types.MsgBridgeCallClaim",
       "Keeper.BridgeCallEvm: k.evmKeeper.IsContract(ctx, to)", "RecvPacket: ok", "RecvPacket: ack != nil",
       "Keeper.OnRecvPacket: ok", "Keeper.OnRecvPacket: isEvmAddr",
       "Keeper.OnRecvPacket: receiveCoin.GetDenom() != fxtypes.DefaultDenom", "Keeper.OnRecvPacket: len(data.Memo) > 0",
